@@ -1209,6 +1209,11 @@ ares_status_t ares_dns_write(const ares_dns_record_t *dnsrec,
 
   status = ares_dns_write_buf(dnsrec, b);
 
+  /* Maximum DNS message size is 64k, the parser refuses anything larger */
+  if (status == ARES_SUCCESS && ares_buf_len(b) > 65535) {
+    status = ARES_EBADQUERY;
+  }
+
   if (status != ARES_SUCCESS) {
     ares_buf_destroy(b);
     return status;
